@@ -623,3 +623,67 @@ def g10_cleaner_start(ctx):
 
 
 RULES.append(('G10', g10_cleaner_start))
+
+
+def g11_suffix_claimed(ctx):
+    """G11 a recognised magnitude suffix belongs to its literal. Either the Number token ends behind the suffix letter (then no
+    later tokenizer sees the letter), or - where the token ends at the digits and the letter is left behind as a word - no unit
+    spelling may equal that letter (unit words are compared lower-cased, so 'M' would be metres and 'G' grams)."""
+    from ..evalint import feasible_values
+    ctx.rule('G11', 'a magnitude suffix is not read as a word', floor=8)
+    b = ctx.facts.one(r'regex_tokinizer::number::number_regex_parser$')
+    ctx.fn(b)
+    calls = list(b.calls(r"Tokinizer::<'a>::add_token_location$|Tokinizer::add_token_location$"))
+    if len(calls) != 1:
+        raise AnchorLost('number_regex_parser: expected one add_token_location call, found %d' % len(calls))
+    bid, t = calls[0]
+    end = b.expr(t['args'][2])
+
+    def group_of(e):
+        """name of the capture group a Match value comes from"""
+        for x in walk(e):
+            if x[0] == 'call' and re.search(r'Captures::<.*>::name$|Captures::name$', x[1]) and len(x[2]) == 2:
+                return model.const_str(x[2][1])
+        return None
+    units = []
+    for fam, it in ctx.config.units():
+        for p in it['parse']:
+            from ..data import abstract_tokens
+            for tk in abstract_tokens(p):
+                if tk[0] == 'field' and tk[1] == 'TEXT' and tk[3]:
+                    units.append((fam, it, tk[3], p))
+                elif tk[0] == 'word':
+                    units.append((fam, it, tk[1], p))
+    for suf in sorted(spec.SUFFIX):
+        def leaf(body, e, suf=suf):
+            e0 = strip(e)
+            if e0[0] == 'call':
+                if re.search(r'PartialEq.*::eq$', e0[1]) and len(e0[2]) == 2:
+                    lits = [model.const_str(x) for x in e0[2]]
+                    if any(l is not None for l in lits) and any(model.const_str(x) is None and group_of(x) == 'NOTATION' for x in e0[2]):
+                        return int([l for l in lits if l is not None][0] == suf)
+                if re.search(r'Match::<.*>::end$|Match::end$', e0[1]):
+                    return 'end:%s' % group_of(e0)
+            if e0[0] == 'discr':
+                x = strip(e0[1])
+                if x[0] == 'call' and re.search(r'Captures::<.*>::name$|Captures::name$', x[1]):
+                    g = model.const_str(x[2][1]) if len(x[2]) == 2 else None
+                    return {'NOTATION': 1, 'DECIMAL': 1}.get(g, 0)
+                if x[0] == 'call' and re.search(r'str::parse|FromStr', x[1]):
+                    return 0
+            return None
+        vals = set()
+        for v, a in feasible_values(b, end, leaf):
+            vals.add(v if isinstance(v, str) else 'end:?')
+        if vals == {'end:NOTATION'}:
+            ctx.ok('G11', 'suffix %r: the Number token ends behind the suffix' % suf, 'table', site=t['loc'])
+            continue
+        hits = [(fam, it, w, p) for fam, it, w, p in units if w.lower() == suf.lower()]
+        if not hits:
+            ctx.ok('G11', 'suffix %r is left behind as a word (token end: %s) and no unit is spelled like it' % (suf, '/'.join(sorted(vals))), 'data', site=t['loc'])
+        for fam, it, w, p in hits:
+            ctx.finding('G11', 'suffix/%s/%s/%s' % (suf, fam, w), "the Number token of 'N%s' ends at the digits (token end: %s) and the suffix letter is left behind as a word, which the unit pattern %r (%s) reads case-insensitively: '3%s' is %s, not 3 x %g, and '2 * 3%s' has no value"
+                        % (suf, '/'.join(sorted(vals)), p, fam, suf, it['names'][0], spec.SUFFIX[suf], suf), site='src/json/config.json types.%s[%d].parse' % (fam, it['index']))
+
+
+RULES.append(('G11', g11_suffix_claimed))
